@@ -217,7 +217,61 @@ def replay_and_validate(pid, groups, wd, verdict, check_totality=False, workers=
     if traces:
         k = sorted(traces)[len(traces) // 2]
         stats["samples"] = [dict(config=groups[pathcfg[k]][0]["name"], behaviour=paths[k], real_events=len(traces[k]))]
+    if vlib.tier() == "thorough" and not viols and per:
+        stats["selftest"] = selftest(wd, groups, per, traces, check_totality)
     return stats
+
+
+def selftest(wd, groups, per, traces, check_totality):
+    """corrupt one recorded field of accepted traces: a hand-over's payload, a hand-over's sender, a dropped acknowledgement"""
+    gi = sorted(per)[0]
+    cfg = groups[gi][0]
+    tf = os.path.join(wd, "selftest.ndjson")
+    with open(tf, "w") as f:
+        for t in per[gi][:200]:
+            f.writelines(traces[t])
+
+    def first_fwd(evs):
+        for e in evs:
+            if e.get("fwd"):
+                return e
+        return None
+
+    def c_payload(evs):
+        e = first_fwd(evs)
+        if not e:
+            return False
+        e["fwd"][0]["pl"]["x"] = "zz"
+        return True
+
+    def c_sender(evs):
+        e = first_fwd(evs)
+        if not e:
+            return False
+        e["fwd"][0]["s"] = 77
+        return True
+
+    def c_dropack(evs):
+        for e in evs:
+            if e.get("out") and any(o.get("k") == "ack" for o in e["out"]):
+                e["out"] = [o for o in e["out"] if o.get("k") != "ack"]
+                return True
+        return False
+
+    def c_double(evs):
+        e = first_fwd(evs)
+        if not e or not e["fwd"][0]["bc"]:
+            return False
+        e["fwd"].append(dict(e["fwd"][0]))
+        return True
+
+    def validate(path):
+        name = write_mc(wd, dict(cfg, name=cfg["name"] + "_st"), None, False, trace=os.path.basename(path), check_totality=check_totality)
+        r = vlib.run_tlc(name, name + ".cfg", ["RBC.tla", "RBCTrace.tla"], workdir=wd, workers=1, timeout=900, keep_prints=["VIOL", "END"], heap="8g")
+        return sum(1 for t, _ in r.prints if t == "VIOL"), sum(1 for t, o in r.prints if t == "END" and o["drift"])
+
+    return vlib.binding_selftest("rbc", tf, [("hand-over payload changed", c_payload), ("hand-over attributed to another sender", c_sender),
+                                              ("acknowledgement removed from the record", c_dropack), ("hand-over duplicated", c_double)], validate)
 
 
 def first_line(traces, ts, t):
@@ -396,7 +450,7 @@ def run(pid):
         exhaustive=False,
         configs=cfg_evidence,
         real_events=stats["events"],
-        drift_traces=stats["drift"], drift_kinds=stats["drift_kinds"],
+        drift_traces=stats["drift"], drift_kinds=stats["drift_kinds"], binding_selftest=stats.get("selftest", "thorough tier only"),
         monitors=MONITORS[pid],
         known_findings_seen=sorted(verdict.known_seen),
         rule="behaviours = maximal paths of the history variable over every explored edge of the bounded model (edges configs) and "
